@@ -1504,12 +1504,18 @@ func checkEquality(v1, v2 reflect.Value) bool {
 
 	kind := v1.Kind()
 	if isInt(kind) {
+		if isFloat(v2.Kind()) {
+			return float64(v1.Int()) == v2.Float()
+		}
 		return v1.Int() == toInt(v2)
 	}
 	if isFloat(kind) {
 		return v1.Float() == toFloat(v2)
 	}
 	if isUint(kind) {
+		if isFloat(v2.Kind()) {
+			return float64(v1.Uint()) == v2.Float()
+		}
 		return v1.Uint() == toUint(v2)
 	}
 
